@@ -205,6 +205,18 @@ func VerifyFunction(p *Program, cs *ContractSet, key string, ct *Contract, maxPa
 		ex.addObl("hint", cl.Label, ct.Props, st, tv.T, fmt.Sprintf("%s:%d", cl.File, cl.Line), cl.Text)
 		st.assume(tv.T)
 	}
+	if len(ct.NoPanicIf) > 0 {
+		var conds []string
+		for _, cl := range ct.NoPanicIf {
+			tv, err := entry.Translate(cl.E, "Bool")
+			if err != nil {
+				rep.Unsupported = fmt.Sprintf("nopanic_if: %v", err)
+				return
+			}
+			conds = append(conds, tv.T)
+		}
+		ex.noPanicCond = and(conds...)
+	}
 	ex.addCover("requires-satisfiable", st, "")
 	outs := ex.run(fn, args, bindings, st.clone(), true, ct)
 	rnames := resultNames(fn.Signature, ct)
